@@ -483,10 +483,31 @@ class Engine:
             return
         if z3.is_false(cond):
             return
+        if self.quick_infeasible(st, cond):
+            st.assume(z3.Not(cond))
+            return
         es = st.copy()
         es.assume(cond)
         fr.exc.append(Outcome("raise", es, None, exc, where))
         st.assume(z3.Not(cond))
+
+    def quick_infeasible(self, st: State, cond) -> bool:
+        """Cheap, sound filter for exception edges: the edge is dropped only if the path condition (without
+        any background axiom) already refutes it within a tiny budget."""
+        if self.dry:
+            return False
+        try:
+            s = z3.Solver()
+            s.set("timeout", 150)
+            s.set("auto_config", False)
+            s.set("mbqi", False)
+            for p in st.pc:
+                if not z3.is_quantifier(p):
+                    s.add(p)
+            s.add(cond)
+            return s.check() == z3.unsat
+        except z3.Z3Exception:
+            return False
 
     # ================================================================== arithmetic
     def ufn(self, name, *sorts):
